@@ -691,6 +691,38 @@ TREE_WITNESSES = [
     ('=LEN(": total")', ('call', 'LEN', ': total')), ('="say ""hi"""', 'say "hi"'), ('="1+2"', '1+2'), ('="SUM(A1)"&"%"', ('op', '&', 'SUM(A1)', '%')),
     ('=CONCATENATE("a,b",")","(")', ('call', 'CONCATENATE', 'a,b', ')', '(')), ('="x:INDEX"', 'x:INDEX'), ('=IF("TRUE"="true",1,2)', ('call', 'IF', ('op', '=', 'TRUE', 'true'), 1, 2)),
 ]
+# argument forms x argument positions: what precedes or follows an argument must not change how it (or the separator) is read
+ARGUMENT_FORMS = [
+    ('A1', 'A1'), ('7', 7), ('"t,)"', 't,)'), ('(A1+2)', ('op', '+', 'A1', 2)), ('(B1)', 'B1'), ('MAX(B1,2)', ('call', 'MAX', 'B1', 2)),
+    ('-(C1)', ('op', '-', 'C1')), ('A1:B2', 'A1:B2'), ('{1,2}', ('call', 'ARRAY', ('call', 'ARRAYROW', 1, 2))), ('NOW()', ('call', 'NOW')),
+    ('((A1))', 'A1'), ('A1*(B1-1)', ('op', '*', 'A1', ('op', '-', 'B1', 1))), ('TRUE', True), ('#N/A', '#N/A'), ('50%', 0.5),
+]
+
+
+def _argument_rows():
+    rows = []
+    for text, tree in ARGUMENT_FORMS:
+        rows.append((f'=F({text},X1,9)', ('call', 'F', tree, 'X1', 9)))
+        rows.append((f'=F(X1,{text},9)', ('call', 'F', 'X1', tree, 9)))
+        rows.append((f'=F(X1,9,{text})', ('call', 'F', 'X1', 9, tree)))
+        rows.append((f'=G(F({text},X1),{text})', ('call', 'G', ('call', 'F', tree, 'X1'), tree)))
+        rows.append((f'=({text})+F({text},1)', ('op', '+', tree, ('call', 'F', tree, 1))))
+    return rows
+
+
+# runs of quote characters inside a string literal: 2k written quotes stand for k quotes, wherever they are
+def _quote_rows():
+    rows = []
+    for k in (1, 2, 3):
+        q = '"' * k
+        for shape in ('a{}b', '{}b', 'a{}', '{}', 'a{}b{}c'):
+            content = shape.format(*([q] * shape.count('{}')))
+            written = '"' + content.replace('"', '""') + '"'
+            rows.append((f'={written}', content))
+            rows.append((f'=LEN({written})&{written}', ('op', '&', ('call', 'LEN', content), content)))
+    return rows
+
+
 RENDERINGS = [
     # renderings that must not change the tree: leading "=", leading blanks, line breaks, "@" before a function name
     ('=A1+1', ['A1+1', ' =A1+1', '= A1+1', '=\nA1+1', '=A1+\n1', '=A1 + 1']),
@@ -712,7 +744,15 @@ def rule_3(ctx):
         ctx.expect(got == P.refify(want), anchor, f'tree of {formula}',
                    f'{formula!r} is parsed as {got!r}, expected {want!r}: every token must be consumed as what the text denotes (calls with their '
                    'arguments in order, literals with their value, references with their text, string literals as opaque text)')
-    ctx.floor(len(TREE_WITNESSES), 'witness formulas')
+    generated = _argument_rows() + _quote_rows()
+    if ctx.tier == 'quick':
+        generated = generated[::2]
+    for formula, want in generated:
+        got = P.parse_tree(ctx, formula, models)
+        ctx.expect(got == P.refify(want), anchor, f'tree of {formula}',
+                   f'{formula!r} is parsed as {got!r}, expected {want!r}: an argument is read the same whatever stands before or after it, and '
+                   'a string literal keeps its exact characters (two written quotes for each quote)')
+    ctx.floor(len(TREE_WITNESSES) + len(generated), 'witness formulas')
 
 
 def rule_7(ctx):
